@@ -187,6 +187,10 @@ def run(ctx):
         ctx.check(got == "ok", "R11.3", uid, f"reuse: {case}", msg=f"module_import: {case}: {got}: the same file would exist as two module instances",
                   key=f"reuse {case}", node=f, rel="global_ctx.py")
 
+    for case, got in import_candidate_cases(program):
+        ctx.check(got == "ok", "R11.3", uid, f"candidates: {case}", msg=f"module_import: {case}: {got}: the file that is loaded does not correspond to the context name it is registered under",
+                  key=f"candidates {case}", node=f, rel="global_ctx.py")
+
     # R11.6 reload never leaves two instances of one module alive ----------------------------------------------------------
     ctx.rule("R11.6", "reload: every context that imports (directly or through other modules) a module that is re-loaded is discarded too, so no importer keeps the old instance", floor=6)
     from .c10 import LS, _model_run, scenarios
@@ -317,7 +321,44 @@ def import_reuse_cases(program):
     return res
 
 
-def _resolve(program, ctx_name, relpath, module_name, level, file_path=None, loaded=None, shadow=None):
+def import_candidate_cases(program):
+    """The (context name, file, package directory) candidates module_import hands to the file lookup, on finite models.
+    Invariant: a candidate's file is its context name with '.' -> '/', plus '/__init__.py' (package directory = that path) or '.py'."""
+    res = []
+    scen = [(c, r, f, m, lv) for c, r, f, m, lv, _ in REUSE_SCEN] + [
+        ("apps.app1", "apps/app1/__init__", "/cfg/pyscript/apps/app1/__init__.py", "pkg.sub.leaf", 0),
+        ("scripts.s1", None, "/cfg/pyscript/scripts/s1.py", "pkg.sub", 0),
+        ("modules.pkg.sub", "modules/pkg/sub", "/cfg/pyscript/modules/pkg/sub/__init__.py", "deep.leaf", 1),
+    ]
+    for ctx_name, relpath, file_path, mod, level in scen:
+        cands = _resolve(program, ctx_name, relpath, mod, level, file_path, want_files=True)
+        label = f"`import {'.' * level}{mod}` in {ctx_name}"
+        if not isinstance(cands, list) or not cands:
+            res.append((label, f"no candidate list reaches the file lookup ({cands!r})"))
+            continue
+        bad = None
+        kinds = set()
+        for row in cands:
+            if len(row) != 3 or not isinstance(row[0], str) or not isinstance(row[1], str):
+                bad = f"candidate {row!r} is not (context name, file, package path)"
+                continue
+            name, path, pkg = row
+            base = name.replace(".", "/")
+            if path == base + "/__init__.py":
+                kinds.add("package")
+                if pkg != base:
+                    bad = f"package candidate {name}: relative imports inside it would resolve against {pkg!r} instead of {base!r}"
+            elif path == base + ".py":
+                kinds.add("module")
+            else:
+                bad = f"candidate context {name} is looked up in file {path!r}; expected {base + '/__init__.py'!r} or {base + '.py'!r}"
+        if bad is None and kinds != {"package", "module"}:
+            bad = f"only {sorted(kinds)} candidates; both the package form and the single-file form must be tried"
+        res.append((label, bad or "ok"))
+    return res
+
+
+def _resolve(program, ctx_name, relpath, module_name, level, file_path=None, loaded=None, shadow=None, want_files=False):
     """Concrete abstract evaluation of module_import's candidate context names for a relative import."""
     uid = "global_ctx.py::GlobalContext.module_import"
     looked = []
@@ -332,10 +373,18 @@ def _resolve(program, ctx_name, relpath, module_name, level, file_path=None, loa
         return [(cfg, Const(None))]
 
     disk = []
+    files = []
+
+    def lookup(interp, node, args, kwargs, cfg, out):
+        disk.append(1)
+        if len(args) > 1 and isinstance(args[1], ListV):
+            for row in args[1].items:
+                files.append(tuple(x.v if isinstance(x, Const) else repr(x) for x in row.items) if isinstance(row, ListV) else repr(row))
+        return [(cfg, Const(None))]
 
     pol = FlowPolicy(program, may_raise_all=False, cancel=False, inline={"GlobalContext.get_name"},
                      summaries={"self.manager.get": mget, "Function.hass.config.path": lambda i, n, a, k, c, o: [(c, Const("/cfg/pyscript"))],
-                                "Function.hass.async_add_executor_job": lambda i, n, a, k, c, o: (disk.append(1), [(c, Const(None))])[1]})
+                                "Function.hass.async_add_executor_job": lookup})
     heap = {"self.rel_import_path": Const(relpath), "self.name": Const(ctx_name), "self.manager": Sym(("mgr",)), "self.imports": ListV((), "set"),
             "self.auto_start": Const(False), "self.file_path": Const(file_path),
             "ctxL.module": ObjV("modL", "ModuleType"), "ctxL.name": Const(loaded), "ctxS.module": Const(None), "ctxS.name": Const(shadow)}
@@ -356,4 +405,6 @@ def _resolve(program, ctx_name, relpath, module_name, level, file_path=None, loa
     if out.get("raise") and not out.get("return"):
         excs = {getattr(c.env.get("$exc"), "cls", "?") for c in out.get("raise")}
         return "ImportError" if excs == {"ImportError"} else f"raise {sorted(excs)}"
+    if want_files:
+        return list(dict.fromkeys(files))
     return sorted(set(looked))
